@@ -2168,6 +2168,145 @@ def check_reuse(name, params, script, combos, default):
 
 
 # ---------------------------------------------------------------------------------------------
+# non-Cartesian and explicitly weighted grids: every option combination against the defining sum
+
+WEIGHTED_KINDS = ['polar_sep', 'polar_regular', 'polar_unstructured', 'cart_regular_w', 'cart_sep_auto', 'cart_sep_w', 'cart_unstructured_w']
+
+
+def make_weighted_grid(kind, p):
+    """(grid, cartesian coordinates (ndim, N) computed here, weights (N,) as passed / reported)"""
+    import hcipy as h
+    rs = np.random.RandomState(p['seed'])
+    def w_for(n):
+        return (rs.randint(1, 33, n) / 16.0)          # non-trivial dyadic weights in (0, 2]
+    if kind.startswith('polar'):
+        if kind == 'polar_sep':
+            r = np.cumsum(rs.randint(1, 5, p['a']) / 8.0)
+            th = np.sort(rs.randint(0, 64, p['b']) / 10.0)
+            mk = lambda w: h.PolarGrid(h.SeparatedCoords((r, th)), weights=w)
+        elif kind == 'polar_regular':
+            mk = lambda w: h.PolarGrid(h.RegularCoords([0.25, 0.5], [p['a'], p['b']], [0.125, 0.0]), weights=w)
+        else:
+            n = p['a'] * p['b']
+            r = rs.randint(1, 20, n) / 8.0
+            th = rs.randint(0, 64, n) / 10.0
+            mk = lambda w: h.PolarGrid(h.UnstructuredCoords((r, th)), weights=w)
+        g0 = mk(None)
+        rr, tt = np.array(g0.coords[0]), np.array(g0.coords[1])
+        w = w_for(g0.size) * rr                      # ~ r dr dtheta with uneven cells
+        return mk(w), np.array([rr * np.cos(tt), rr * np.sin(tt)]), w
+    if kind == 'cart_regular_w':
+        mk = lambda w: h.CartesianGrid(h.RegularCoords([0.5, 0.25], [p['a'], p['b']], [-0.75, -0.5]), weights=w)
+    elif kind in ('cart_sep_auto', 'cart_sep_w'):
+        x = np.cumsum(rs.randint(1, 5, p['a']) / 8.0) - 1.0
+        y = np.cumsum(rs.randint(1, 5, p['b']) / 8.0) - 0.5
+        mk = lambda w: h.CartesianGrid(h.SeparatedCoords((x, y)), weights=w)
+    else:
+        n = p['a'] * p['b']
+        x, y = rs.randint(-16, 17, n) / 8.0, rs.randint(-16, 17, n) / 8.0
+        mk = lambda w: h.CartesianGrid(h.UnstructuredCoords((x, y)), weights=w)
+    g0 = mk(None)
+    xy = np.array([np.array(g0.coords[0]), np.array(g0.coords[1])])
+    if kind == 'cart_sep_auto':
+        w = np.array(g0.weights) * np.ones(g0.size)   # automatic weights: taken as the grid reports them
+        return g0, xy, w
+    w = w_for(g0.size)
+    return mk(w), xy, w
+
+
+def plain_grid(p):
+    import hcipy as h
+    g = h.make_focal_grid(p['q'], p['nairy'])
+    return g, np.array([np.array(g.x), np.array(g.y)]), np.array(g.weights) * np.ones(g.size)
+
+
+def defining_matrices(xin, win, xout, wout):
+    """forward F_k = sum_j w_j f_j exp(-i u_k.x_j); backward f_j = (2 pi)^-n sum_k W_k F_k exp(+i u_k.x_j)"""
+    phase = xout.T @ xin                       # (Nout, Nin)
+    fwd = np.exp(-1j * phase) * win[None, :]
+    bwd = np.exp(1j * phase.T) * wout[None, :] / (2 * np.pi) ** xin.shape[0]
+    return fwd, bwd
+
+
+def check_weighted(kind, side, tname, p, combos):
+    """list of (nflips-ish, what-part, combo, text)"""
+    import hcipy as h
+    bad = []
+    for combo in combos:
+        with config(**combo), warnings.catch_warnings():
+            warnings.simplefilter('error')
+            warnings.filterwarnings('ignore', category=SyntaxWarning)
+            warnings.filterwarnings('ignore', category=DeprecationWarning)
+            gw, xw, ww = make_weighted_grid(kind, p)
+            if side == 'both':
+                p2 = dict(p, seed=p['seed'] + 1, a=p['b'], b=p['a'])
+                go, xo, wo = make_weighted_grid(kind if not kind.startswith('polar') else 'cart_regular_w', p2)
+                gin, xin, win, gout, xout, wout = gw, xw, ww, go, xo, wo
+            else:
+                gp, xp, wp = plain_grid(p)
+                gin, xin, win, gout, xout, wout = (gw, xw, ww, gp, xp, wp) if side == 'in' else (gp, xp, wp, gw, xw, ww)
+            fwd, bwd = defining_matrices(xin, win, xout, wout)
+            try:
+                if tname == 'nft':
+                    ft = h.NaiveFourierTransform(gin, gout)
+                elif tname == 'mft':
+                    ft = h.MatrixFourierTransform(gin, gout)
+                else:
+                    ft = h.make_fourier_transform(gin, gout)
+                rs = np.random.RandomState(p['seed'] + 7)
+                tests = []
+                for tensor in ([], [2]):
+                    a = (rs.randint(-8, 9, tensor + [gin.size]) + 1j * rs.randint(-8, 9, tensor + [gin.size])).astype(complex)
+                    b = (rs.randint(-8, 9, tensor + [gout.size]) + 1j * rs.randint(-8, 9, tensor + [gout.size])).astype(complex)
+                    tests.append(('forward', np.asarray(ft.forward(h.Field(a, gin))), a @ fwd.T))
+                    tests.append(('backward', np.asarray(ft.backward(h.Field(b, gout))), b @ bwd.T))
+                    tests.append(('forward again', np.asarray(ft.forward(h.Field(a, gin))), a @ fwd.T))
+                tests.append(('matrix_forward', np.asarray(ft.get_transformation_matrix_forward()), fwd))
+                tests.append(('matrix_backward', np.asarray(ft.get_transformation_matrix_backward()), bwd))
+                for part, got, want in tests:
+                    if got.shape != want.shape:
+                        bad.append((part, combo, 'shape %s instead of %s' % (got.shape, want.shape)))
+                        break
+                    scale = max(float(np.max(np.abs(want))), 1e-300)
+                    err = float(np.max(np.abs(got - want))) / scale
+                    if not err <= PIPE_TOL:
+                        bad.append((part, combo, 'differs from the defining weighted sum by %.3g relative' % err))
+                        break
+            except MachineryError:
+                raise
+            except Warning as w:
+                bad.append(('warns', combo, '%s: %s' % (type(w).__name__, str(w)[:100])))
+            except Exception as e:  # noqa
+                bad.append(('raises', combo, '%s: %s' % (type(e).__name__, str(e)[:100])))
+    return bad
+
+
+def run_weighted_sweep(ctx, default):
+    rng = ctx.rng
+    thorough = ctx.tier == 'thorough'
+    for rep in range(ctx.scale(1, 4)):
+        for kind in WEIGHTED_KINDS:
+            for side in ('in', 'out', 'both'):
+                tnames = ['nft', 'make'] + (['mft'] if kind in ('cart_regular_w', 'cart_sep_auto', 'cart_sep_w') else [])
+                for tname in tnames:
+                    relevant = {'nft': ('nft_pre',), 'mft': ('mft_pre', 'mft_alloc'), 'make': ('nft_pre', 'mft_pre', 'mft_alloc')}[tname]
+                    combos = [c for c in reuse_combos(relevant, thorough) if thorough or c['method'] == METHODS[3]]
+                    p = {'a': int(rng.integers(2, 6)), 'b': int(rng.integers(2, 6)), 'q': int(rng.integers(1, 3)), 'nairy': int(rng.integers(1, 3)),
+                         'seed': int(rng.integers(0, 10000))}
+                    bad = check_weighted(kind, side, tname, p, combos)
+                    ctx.count('weighted:%s:%s' % (kind, tname))
+                    ctx.count('weighted-configurations', len(combos))
+                    ctx.case(None, nontrivial_key=('weighted', kind, side, tname, tuple(sorted(p.items()))))
+                    if bad:
+                        part, combo, what = bad[0]
+                        flipped = sorted(k for k in combo if combo[k] != default.get(k))
+                        ctx.violation('weighted %s %s %s %s %s' % (tname, kind, side, part, '+'.join(flipped) or 'default'),
+                                      '%s on a %s grid (%s side): %s %s; configuration %s (%d of %d configurations fail)' % (
+                                          tname, kind, side, part, what, ', '.join('%s=%r' % kv for kv in sorted(combo.items())), len(bad), len(combos)),
+                                      {'weighted': kind, 'side': side, 'transform': tname, 'params': p, 'combo': combo})
+
+
+# ---------------------------------------------------------------------------------------------
 # the property evaluated on the observations (independent of the Lean model)
 
 INPLACE_STMTS = ('iop', 'setix', 'setmask', 'xstmt', 'iopix', 'iopmask', 'out', 'setreal', 'setimag', 'sortip', 'fill')
@@ -2462,7 +2601,7 @@ def run(ctx):
                 'every elementwise node with a Field operand must return a Field on that grid; copy/pickle must return an independent equal '
                 'Field. Correspondence: tag (Field+grid / ndarray / scalar), shape, dtype class and values of every observation of each '
                 'style against the matching model route. Pipelines: 20 library computations (incl. hcipy._math.fft called directly on four dtypes) under all 64 configuration combinations '
-                'against the default; 8 kinds of Fourier object (MFT 2-D/1-D, FFT 2-D/1-D, FourierFilter, NFT, make_fourier_transform, ZoomFFT) each REUSED over scripted and random call sequences (precision changes, tensor-shape changes, forward/backward) under every relevant switch x field style x backend, every call compared with a fresh object under the same configuration and with the default configuration. Non-trivial = at least three statements; distinct by the sequence of statement signatures.')
+                'against the default; 8 kinds of Fourier object (MFT 2-D/1-D, FFT 2-D/1-D, FourierFilter, NFT, make_fourier_transform, ZoomFFT) each REUSED over scripted and random call sequences (precision changes, tensor-shape changes, forward/backward) under every relevant switch x field style x backend, every call compared with a fresh object under the same configuration and with the default configuration; NFT / MFT / make_fourier_transform on polar (separated, regular, unstructured) and explicitly or automatically weighted Cartesian grids as input, output or both, under every option combination, forward / backward / transformation matrices against the defining weighted Fourier sum computed by the harness. Non-trivial = at least three statements; distinct by the sequence of statement signatures.')
     ctx.assumptions += ['plain ndarray arithmetic is the reference for the values',
                         'dyadic inputs: results are exact or within 1e-12 of the exact value',
                         'mkl_fft and pyfftw are not installed: those backend names exercise the fall-through only']
@@ -2532,6 +2671,7 @@ def _run(ctx):
                                   name, what, ', '.join('%s=%r' % (k, combo[k]) for k in flipped), len(bad), len(use)),
                               {'pipeline': name, 'params': params, 'combo': combo})
     run_reuse_sweep(ctx, default)
+    run_weighted_sweep(ctx, default)
 
 
 def run_reuse_sweep(ctx, default):
@@ -2561,6 +2701,11 @@ def run_reuse_sweep(ctx, default):
 
 
 def replay(ctx, case):
+    if 'weighted' in case:
+        bad = check_weighted(case['weighted'], case['side'], case['transform'], case['params'], [case['combo']])
+        for part, combo, what in bad:
+            print('  fails:', part, '-', what)
+        return not bad
     if 'reuse' in case:
         default = {k: v for k, v in snapshot_config().items()}
         bad = check_reuse(case['reuse'], case['params'], case['script'], [case['combo']] if case['combo'] else [], default)
